@@ -181,6 +181,13 @@ def scenario(cfg, src, symbolic: bool) -> List[str]:
     strict = bool(cfg.get('strict'))
     M = make_class(amap, alias if op == 'evaluate' else None)
     M2 = make_class({}, canon if op == 'evaluate' else None)
+    if cfg.get('subclass'):
+        # HISTORY (round 13): the parent class is instantiated first, then a subclass that extends ALIASES by a further
+        # alias of `alias`; whatever the parent's instances left behind must not hide the subclass's own declaration
+        M(list(labels), dtype=dtype, strict=strict)
+        M = type('Sub', (M,), {'ALIASES': dict(amap, ZZ=alias)})
+        alias = 'ZZ'
+    step = cfg.get('step')
     cells = {v: [src.f(f'{v}_{j}') for j in range(n)] for v in VARS}
     val = src.f('val')
     vals = [src.f(f'val_{j}') for j in range(n)]
@@ -255,16 +262,16 @@ def scenario(cfg, src, symbolic: bool) -> List[str]:
         r1 = _run(lambda: m.__setitem__((alias, la), val))
         r2 = _run(lambda: m2.__setitem__((canon2, la), val))
     elif op == 'slice_write':
-        r1 = _run(lambda: m.__setitem__((alias, slice(la, lb)), val))
-        r2 = _run(lambda: m2.__setitem__((canon2, slice(la, lb)), val))
+        r1 = _run(lambda: m.__setitem__((alias, slice(la, lb, step)), val))
+        r2 = _run(lambda: m2.__setitem__((canon2, slice(la, lb, step)), val))
     elif op == 'label_read':
         r1 = _run(lambda: m[alias, la])
         r2 = _run(lambda: m2[canon2, la])
         if r1[0] != r2[0] or (r1[0] == 'ret' and not _eqv(r1[1], r2[1], symbolic)) or (r1[0] == 'exc' and r1[1] != r2[1]):
             bad.append(f'label read via alias differs: {r1[0]} vs {r2[0]}')
     elif op == 'slice_read':
-        r1 = _run(lambda: list(m[alias, la:lb]))
-        r2 = _run(lambda: list(m2[canon2, la:lb]))
+        r1 = _run(lambda: list(m[alias, la:lb:step]))
+        r2 = _run(lambda: list(m2[canon2, la:lb:step]))
         if r1[0] != r2[0] or (r1[0] == 'ret' and (len(r1[1]) != len(r2[1]) or not all(_eqv(x, y, symbolic) for x, y in zip(r1[1], r2[1])))):
             bad.append('label-slice read via alias differs')
     elif op == 'replace_values':
@@ -379,6 +386,15 @@ def configs(tier: str):
                     out.append(cfg18(amap=amap, op=op, alias=alias, n=4, span='str', la=la, lb=lb))
             for op in ('attr_write', 'attr_write_seq', 'key_write', 'replace_values', 'pos_write', 'evaluate', 'attr_read', 'ctor_kw'):
                 out.append(cfg18(amap=amap, op=op, alias=alias, n=3, strict=True))
+            # stepped label slices through an alias (round 13), concrete and symbolic labels
+            for op in ('slice_write', 'slice_read'):
+                for step in (2, 3):
+                    for la, lb in (('I', 'K'), ('I', 'J'), ('base', 'K'), ('A', 'A')):
+                        out.append(cfg18(amap=amap, op=op, alias=alias, n=5, span='str', la=la, lb=lb, step=step))
+                    out.append(cfg18(amap=amap, op=op, alias=alias, n=3, step=step))
+            # a subclass that extends ALIASES, built after its parent has been instantiated (round 13)
+            for op in ('attr_write', 'attr_write_seq', 'key_write', 'label_write', 'slice_write', 'slice_read', 'label_read', 'replace_values', 'attr_read'):
+                out.append(cfg18(amap=amap, op=op, alias=alias, n=3, subclass=True))
     return out
 
 
